@@ -461,3 +461,48 @@ def run(ctx):  # noqa: F811
     r14_5(ctx, ctx.model)
     r14_6(ctx, ctx.model)
     r14_7(ctx, ctx.model)
+
+
+def r14_8(ctx, m):
+    from ..model import cc
+    ctx.rule("R14.8", "StochasticAbsDeltaEnergyController: the energy memory is a sliding window of exactly memory_length entries - after "
+                      "appending, ONE entry is dropped when the length exceeds memory_length (strict comparison); a non-strict test "
+                      "keeps the window one entry short of the documented length and stops earlier than the stated criterion", floor=1)
+    C = m.cls("nifty.cl.minimization.iteration_controllers", "StochasticAbsDeltaEnergyController", required=False)
+    if C is None:
+        ctx.und("R14.8", "iteration_controllers.py::StochasticAbsDeltaEnergyController", "class missing", "nifty/cl/minimization/iteration_controllers.py")
+    else:
+        ck = C.methods.get("check")
+        ctx.saw_func(ck)
+        trims = [st for st in walk_no_nested(ck.node) if isinstance(st, ast.If) and "len(self._memory)" in src(st.test) and "memory_length" in src(st.test)]
+        key = f"{ck.key}::window length"
+        if len(trims) != 1:
+            ctx.und("R14.8", key, f"{len(trims)} trimming tests", ck)
+        else:
+            t = cc(trims[0].test)
+            one = any(src(s_).replace(" ", "") in ("self._memory=self._memory[1:]", "self._memory.pop(0)", "delself._memory[0]") for s_ in trims[0].body)
+            if t == "self.memory_length < len(self._memory)":
+                ctx.check("R14.8", key, True if one else None, f"`if {src(trims[0].test)}` drops {'one entry' if one else '?'}", ck, trims[0])
+            elif t == "self.memory_length <= len(self._memory)":
+                ctx.bad("R14.8", key, f"`if {src(trims[0].test)}`: the window shrinks to memory_length - 1 entries", ck, trims[0])
+            else:
+                ctx.und("R14.8", key, f"test `{t}` not recognised", ck, trims[0])
+    ctx.rule("R14.9", "InversionEnabler.apply is a function of (x, mode) only: no result is remembered under the identity id(x) of a "
+                      "transient input (addresses are recycled: a new right-hand side at the same address would get the old solution)", floor=1)
+    IE = m.cls("nifty.cl.operators.inversion_enabler", "InversionEnabler")
+    ap = IE.methods["apply"]
+    ctx.saw_func(ap)
+    xn = ap.params()[1]
+    ids = [c for c in walk_no_nested(ap.node) if isinstance(c, ast.Call) and src(c.func) == "id" and c.args and src(c.args[0]) == xn]
+    memo = [st for st in walk_no_nested(ap.node) if isinstance(st, ast.Assign) and isinstance(st.targets[0], ast.Attribute) and src(st.targets[0].value) == "self"
+            and "position" in src(st.value)]
+    ctx.check("R14.9", f"{ap.key}::no identity-keyed memo of solutions", not ids and not memo,
+              f"`{src((ids or memo)[0])}`: a solution is remembered and handed out again for a later input" if (ids or memo) else None, ap, (ids or memo or [None])[0])
+
+
+_run_c14c = run
+
+
+def run(ctx):  # noqa: F811
+    _run_c14c(ctx)
+    r14_8(ctx, ctx.model)
